@@ -193,3 +193,33 @@ Lemma rm_not_cancelled :
   accounted [rm_step] 0 < conf_ver rm_region - 6 /\
   remove_names_other_peer rm_region rm_step = true.
 Proof. vm_compute. repeat split; try reflexivity. eexists. split; reflexivity. Qed.
+
+(* ---------- RemoveOperator's Cancel and buryOperator's Cancel do the same thing ---------- *)
+(* (why dropping either one alone changes nothing observable: the other still cancels a non-ended operator) *)
+Lemma put_op_idem l a : put_op (put_op l a) a = put_op l a.
+Proof.
+  unfold put_op. rewrite map_map. apply map_ext. intros x.
+  destruct (o_id x =? o_id a) eqn:E; [rewrite Z.eqb_refl; reflexivity|rewrite E; reflexivity].
+Qed.
+
+Lemma cancel_before_bury_redundant c id : bury (cancel c id) id = bury c id.
+Proof.
+  unfold cancel. destruct (get_op c id) as [o|] eqn:Ho; [|reflexivity].
+  pose proof (get_op_id _ _ _ Ho) as I.
+  set (oc := fst (op_to o CANCELED)).
+  assert (Ioc : o_id oc = id) by (unfold oc; destruct (rel_op_to o CANCELED) as (R1 & _); congruence).
+  assert (Hc : get_op (set_op c oc) id = Some oc).
+  { rewrite <- Ioc. apply get_set_op_same with (o := o). rewrite Ioc. exact Ho. }
+  unfold bury. rewrite Hc, Ho.
+  assert (E : (if op_is_end oc then oc else fst (op_to oc CANCELED)) = oc /\ (if op_is_end o then o else fst (op_to o CANCELED)) = oc).
+  { unfold oc, op_to, op_is_end. destruct (valid_trans (o_st o) CANCELED) eqn:V; cbn [fst].
+    - assert (E1 : is_end_status (o_st (with_st o CANCELED (o_slow o))) = true) by reflexivity.
+      rewrite E1. split; [reflexivity|].
+      destruct (is_end_status (o_st o)) eqn:E2; [|reflexivity].
+      exfalso. destruct (o_st o); cbn in E2; try discriminate E2; vm_compute in V; discriminate V.
+    - rewrite V. cbn [fst]. split; destruct (is_end_status (o_st o)); reflexivity. }
+  destruct E as [E1 E2]. rewrite E1, E2.
+  unfold set_op, set_ops, upd; cbn.
+  change (map (fun x : opr => if o_id x =? o_id oc then oc else x) (put_op (ops c) oc)) with (put_op (put_op (ops c) oc) oc).
+  rewrite put_op_idem. reflexivity.
+Qed.
